@@ -45,3 +45,8 @@ CLAIMED['C13'] = dict(
          'descending axes; len) against spec functions transcribed from segyio/CPython. Value structure (shapes, header dict contents, bin/text, attributes, tools, subvolume) '
          'is not covered by this check.',
     note='AX-SEGYIO-ACC transcription (hash pinned); values_function abstract; line numbers >= 1')
+CLAIMED['C17'] = dict(
+    text='Proof (fault mode: any range read may raise or come back short/empty): for the range-read primitives + choke point (file and blob) and every loader function / '
+         'sample-reading method under contract, normal return implies that every range read succeeded, and no pool-task exception is dropped. With C02 this gives '
+         '"raises or returns the true data". Footer/header reads only as far as their contracts exist.',
+    note='AX-POOL, AX-GIL, AX-FILE/AX-BLOB weak form; value side is C02 (fault-free executions)')
